@@ -157,6 +157,12 @@ class C09(Prop):
                     if not w.sockets[sid].closed_by_seq(w.events[rec.ev1 - 1][0] if rec.ev1 else 0):
                         out.append(viol("connection-of-failed-call-kept", rec, sock=sid,
                                         exc=type(rec.exc).__name__))
+            # a read whose reply was an error line failed too, even when ignore_exc turns that into a miss
+            if rec.outcome == "return" and rec.method in ("get", "gets", "get_many", "gets_many", "gat", "gats") and \
+                    any(f[0] == "reply" and f[2] == "errline" for f in rec.fired):
+                for sid in used_socks:
+                    if not w.sockets[sid].closed_by_seq(w.events[rec.ev1 - 1][0] if rec.ev1 else 0):
+                        out.append(viol("connection-of-failed-call-kept", rec, disc="swallowed", sock=sid))
             # ... and never carries a later command
             for sid in socks_used(w, rec, ("sendall",)):
                 s = w.sockets[sid]
